@@ -61,6 +61,101 @@ theorem renderGroup_single (buf : List Nat) (n : Nat) (s : Span) (h1 : s.b ≤ s
   simp only [renderGroup, single, sortByEnd, insertByEnd, List.getLast?_singleton, subDetails, hs1, hs2, hs3]
   simp [replacement]
 
+/-- **the matched source with each roll replaced by `value[annotation]`**: the text between the rolls is copied, every
+    roll's extent `[b, e)` is replaced by its `replacement` (computed from the ORIGINAL text of that extent) -/
+def spliced (n : Nat) (buf : List Nat) : Nat → List Span → List Nat
+  | pos, [] => buf.drop pos
+  | pos, s :: rest => (buf.take s.b).drop pos ++ replacement n ((buf.take s.e).drop s.b) s ++ spliced n buf s.e rest
+
+/-- all spans of a separated list starting after `lastEnd` end at or before `bound` -/
+def EndsBefore (bound : Nat) (spans : List Span) : Prop := ∀ s ∈ spans, s.e ≤ bound
+
+theorem separated_append : ∀ (f : List Span) (lastEnd : Int) (s : Span),
+    Separated lastEnd (f ++ [s]) → Separated lastEnd f ∧ EndsBefore s.b f ∧ s.b ≤ s.e ∧ lastEnd < (s.b : Int) := by
+  intro f
+  induction f with
+  | nil => intro lastEnd s h; exact ⟨trivial, (by intro t ht; cases ht), h.2.1, h.1⟩
+  | cons t f ih =>
+    intro lastEnd s h
+    obtain ⟨h1, h2, h3⟩ := h
+    obtain ⟨i1, i2, i3, i4⟩ := ih _ s h3
+    refine ⟨⟨h1, h2, i1⟩, ?_, i3, by omega⟩
+    intro u hu
+    simp at hu
+    rcases hu with rfl | hu
+    · omega
+    · exact i2 u hu
+
+/-- cutting the buffer at the start of a later roll does not change how the earlier rolls are spliced -/
+theorem spliced_snoc (n : Nat) (P : List Nat) (s : Span) : ∀ (f : List Span) (pos : Nat) (lastEnd : Int),
+    Separated lastEnd f → EndsBefore s.b f →
+    spliced n P pos (f ++ [s]) =
+      spliced n (P.take s.b) pos f ++ (replacement n ((P.take s.e).drop s.b) s ++ P.drop s.e) := by
+  intro f
+  induction f with
+  | nil => intro pos _ _ _; simp [spliced]
+  | cons t f ih =>
+    intro pos lastEnd hsep hend
+    obtain ⟨_, h2, h3⟩ := hsep
+    have hte : t.e ≤ s.b := hend t (by simp)
+    have hend' : EndsBefore s.b f := fun u hu => hend u (by simp [hu])
+    simp only [List.cons_append, spliced]
+    rw [ih t.e _ h3 hend']
+    have e1 : (P.take s.b).take t.b = P.take t.b := by rw [List.take_take]; congr 1; omega
+    have e2 : (P.take s.b).take t.e = P.take t.e := by rw [List.take_take]; congr 1; omega
+    rw [e1, e2]
+    simp [List.append_assoc]
+
+/-- **Every number of non-overlapping rolls**: splicing the one-span groups from right to left (as makeDetailStr does,
+    each step rewriting the buffer the next step reads) yields the original text with every roll replaced in place. -/
+theorem splice_separated_rev (n : Nat) : ∀ (r : List Span) (P X : List Nat) (lastEnd : Int),
+    Separated lastEnd r.reverse → EndsBefore P.length r.reverse →
+    spliceGroups n (r.reverse.map single).reverse (P ++ X) = some (spliced n P 0 r.reverse ++ X) := by
+  intro r
+  induction r with
+  | nil => intro P X _ _ _; simp [spliceGroups, spliced]
+  | cons s r ih =>
+    intro P X lastEnd hsep hend
+    rw [List.reverse_cons] at hsep hend ⊢
+    obtain ⟨hf, hfe, hbe, _⟩ := separated_append r.reverse lastEnd s hsep
+    have hse : s.e ≤ P.length := hend s (by simp)
+    simp only [List.map_append, List.map_cons, List.map_nil, List.reverse_append, List.reverse_cons, List.reverse_nil,
+      List.nil_append, List.singleton_append, spliceGroups]
+    rw [renderGroup_single (P ++ X) n s hbe (by simp; omega)]
+    have t1 : (P ++ X).take s.b = P.take s.b := by rw [List.take_append_of_le_length (by omega)]
+    have t2 : (P ++ X).take s.e = P.take s.e := by rw [List.take_append_of_le_length hse]
+    have t3 : (P ++ X).drop s.e = P.drop s.e ++ X := by rw [List.drop_append_of_le_length hse]
+    simp only [t1, t2, t3]
+    have hlen : (P.take s.b).length = s.b := by simp; omega
+    have := ih (P.take s.b) (replacement n ((P.take s.e).drop s.b) s ++ (P.drop s.e ++ X)) lastEnd hf
+      (by intro u hu; rw [hlen]; exact hfe u hu)
+    simp only [List.append_assoc, List.map_reverse, List.reverse_reverse] at this ⊢
+    rw [this, spliced_snoc n P s r.reverse 0 lastEnd hf hfe]
+    simp [List.append_assoc]
+
+/-- **Every number of non-overlapping rolls**: splicing the one-span groups from right to left (as makeDetailStr does,
+    each step rewriting the buffer the next step reads) yields the original text with every roll replaced in place. -/
+theorem splice_separated (n : Nat) (spans : List Span) (P X : List Nat) (lastEnd : Int)
+    (hsep : Separated lastEnd spans) (hend : EndsBefore P.length spans) :
+    spliceGroups n (spans.map single).reverse (P ++ X) = some (spliced n P 0 spans ++ X) := by
+  have := splice_separated_rev n spans.reverse P X lastEnd (by simpa using hsep) (by simpa using hend)
+  simpa using this
+
+/-- **The process text for any number of non-overlapping rolls** is the matched source with each roll replaced by
+    `value[annotation]` (trimmed; empty when that is just the result). -/
+theorem makeDetail_separated (src : List Nat) (offset : Nat) (spans : List Span) (ret : List Nat)
+    (hoff : offset ≤ src.length) (hsep : Separated (-1) spans) (hend : EndsBefore offset spans) :
+    makeDetail src offset spans ret =
+      some (let t := trimSpace (spliced spans.length (src.take offset) 0 spans); if t == ret then [] else t) := by
+  have hs : slice src 0 offset = some (src.take offset) := by simp [slice, hoff]
+  simp only [makeDetail, hs]
+  rw [groupSpans_separated spans (-1) [] hsep]
+  simp only [List.reverse_nil, List.nil_append, List.length_map]
+  have hlen : (src.take offset).length = offset := by simp; omega
+  have := splice_separated spans.length spans (src.take offset) [] (-1) hsep (by rw [hlen]; exact hend)
+  simp only [List.append_nil] at this
+  rw [this]
+
 /-- for a plain dice roll whose text differs from its value the annotation is exactly
     `value[source=text]`: e.g. `7[2d6=3+4]` -/
 theorem dice_annotation (n : Nat) (base ret text : List Nat) (hne : text ≠ []) (hd : ret ≠ text)
@@ -83,5 +178,14 @@ theorem dice_annotation (n : Nat) (base ret text : List Nat) (hne : text ≠ [])
 example : makeDetail [50, 100, 54, 32, 43, 32, 49] 7
     [{ b := 0, e := 3, ret := [55], text := [51, 43, 52], expr := [], tag := "dice", textOnly := false, exprSuffix := [] }]
     [56] = some [55, 91, 50, 100, 54, 61, 51, 43, 52, 93, 32, 43, 32, 49] := by decide
+
+/- non-vacuity: `2d6 + 1d4` with rolls 7 = 3+4 at bytes 0..3 and 2 at bytes 6..9 -/
+example : Separated (-1) [{ b := 0, e := 3, ret := [55], text := [51, 43, 52], expr := [], tag := "dice", textOnly := false, exprSuffix := [] },
+    { b := 6, e := 9, ret := [50], text := [], expr := [], tag := "dice", textOnly := false, exprSuffix := [] }] := by
+  simp [Separated]
+example : spliced 2 [50, 100, 54, 32, 43, 32, 49, 100, 52] 0
+    [{ b := 0, e := 3, ret := [55], text := [51, 43, 52], expr := [], tag := "dice", textOnly := false, exprSuffix := [] },
+     { b := 6, e := 9, ret := [50], text := [], expr := [], tag := "dice", textOnly := false, exprSuffix := [] }]
+    = [55, 91, 50, 100, 54, 61, 51, 43, 52, 93, 32, 43, 32, 50, 91, 49, 100, 52, 93] := by decide
 
 end DS.Props.C14
